@@ -8,9 +8,11 @@ pub mod c09;
 pub mod c10;
 pub mod c11;
 pub mod c12;
+pub mod c14;
 pub mod c16;
 pub mod c17;
 pub mod c18;
+pub mod c19;
 pub mod sweep;
 
 pub fn lookup(id: &str) -> Box<dyn Property> {
@@ -26,9 +28,11 @@ pub fn lookup(id: &str) -> Box<dyn Property> {
         "C10" => Box::new(c10::C10),
         "C11" => Box::new(c11::C11),
         "C12" => Box::new(c12::C12),
+        "C14" => Box::new(c14::C14),
         "C16" => Box::new(c16::C16),
         "C17" => Box::new(c17::C17),
         "C18" => Box::new(c18::C18),
+        "C19" => Box::new(c19::C19),
         _ => panic!("unknown property {id}"),
     }
 }
